@@ -13,6 +13,11 @@ a static entry stays stored and unchanged until it is removed with `remove` / `t
 (all `&mut self`) — in particular when the same key had been loaded (and registered with the
 reloader), removed or cleared before and was re-created by `get_or_insert`.
 
+Loaders may call `get_or_insert` themselves (`Prog.getOrInsert`): a cell created during an evaluation
+was created by a load (dynamic iff hot type and reloader) or by a loader's `get_or_insert` (static) —
+`C10_loaded_dynamic_iff`; for loaders that never call it the sharper former statement holds
+(`C10_loaded_dynamic_iff_no_insert`).
+
 All theorems quantify over every environment (source, fault plan, type table, constructor), every
 fuel, every cache and reloader state (`St`, `RSt`), every loader program.
 -/
@@ -112,32 +117,96 @@ def FreshCell (env : Env) (k : Key) (c : Cell) : Prop :=
   (c.dyn = true ↔ ((env.types k.ty).hot = true ∧ env.hasReloader = true)) ∧
   c.rid = ReloadId_NEVER ∧ c.flag = false
 
-theorem newCells_fresh (env : Env) : NewCellsSat env (FreshCell env) := by
+/-- what is known of a cell created by `get_or_insert` (by the API operation or by a loader) -/
+def InsertedCell (c : Cell) : Prop := c.dyn = false ∧ c.rid = ReloadId_NEVER ∧ c.flag = false
+
+/-- what is known of a cell created under `env` for key `k` during an evaluation: it was created by a
+load (`FreshCell`) or handed to `get_or_insert` by a loader (`InsertedCell`) -/
+def CreatedCell (env : Env) (k : Key) (c : Cell) : Prop := FreshCell env k c ∨ InsertedCell c
+
+theorem newCells_created (env : Env) : NewCellsSat env (CreatedCell env) := by
+  refine ⟨?_, fun key v addr => Or.inr (insertedCell_static env key v addr)⟩
   intro key v addr
-  refine ⟨?_, rfl, rfl⟩
+  refine Or.inl ⟨?_, rfl, rfl⟩
   simp only [newCell, loadedEntryDynamic_cfg, Bool.and_eq_true]
+
+/-- in either case: dynamic only if the type is hot-reloaded and the cache has a reloader; reload id
+`NEVER`; flag clear -/
+theorem CreatedCell.weak {env : Env} {k : Key} {c : Cell} (h : CreatedCell env k c) :
+    (c.dyn = true → ((env.types k.ty).hot = true ∧ env.hasReloader = true)) ∧ c.rid = ReloadId_NEVER ∧ c.flag = false := by
+  rcases h with h | h
+  · exact ⟨h.1.mp, h.2.1, h.2.2⟩
+  · exact ⟨fun hd => (by rw [h.1] at hd; cases hd), h.2.1, h.2.2⟩
 
 example : (newCell (exEnv 1) 0 (.int 1) 0).dyn = true ∧ (newCell (exEnvOpt 1) 1 (.int 1) 0).dyn = false ∧
     (newCell (exEnvNo 1) 0 (.int 1) 0).dyn = false := by decide
 
-/-- A cell created by a load — at any depth of any evaluation of any loader — is dynamic iff its
-type is hot-reloaded AND the cache has a reloader; it starts with reload id `NEVER` and a clear
-flag. -/
+/-- A cell created at any depth of any evaluation of any loader was created by a load — then it is
+dynamic iff its type is hot-reloaded AND the cache has a reloader — or by a loader's `get_or_insert` —
+then it is static; either way it starts with reload id `NEVER` and a clear flag.
+(Before loaders could call `get_or_insert` the conclusion was `FreshCell env k c`; that is false now:
+`getOrInsert k v` run as a loader program under a hot type in a cache with reloader creates a static
+cell, see the `example` below.) -/
 theorem C10_loaded_dynamic_iff (env : Env) (fuel : Nat) (s : St) (p : Prog) (k : Key) (c : Cell)
-    (hnew : s.lookup k = none) (h : (eval env fuel s p).1.lookup k = some c) : FreshCell env k c := by
-  rcases eval_added env (FreshCell env) (newCells_fresh env) fuel s p k c h with h' | h'
+    (hnew : s.lookup k = none) (h : (eval env fuel s p).1.lookup k = some c) : CreatedCell env k c := by
+  rcases eval_added env (CreatedCell env) (newCells_created env) fuel s p k c h with h' | h'
   · rw [hnew] at h'; cases h'
   · exact h'
 
 /-- a nested load inside an evaluation creates the entry -/
-example : FreshCell (exEnv 1) exKey ⟨.int 1, true, 0, false, 0⟩ :=
+example : CreatedCell (exEnv 1) exKey ⟨.int 1, true, 0, false, 0⟩ :=
   C10_loaded_dynamic_iff (exEnv 1) 5 {} (.load exKey Prog.ret') exKey _ rfl (by decide)
+
+/-- the old conclusion is false: a loader's `get_or_insert` creates a static cell of a hot type in a
+cache with reloader -/
+example : (eval (exEnv 1) 5 {} (.getOrInsert exKey (.int 7) .ret)).1.lookup exKey = some ⟨.int 7, false, 0, false, 0⟩ ∧
+    ¬ FreshCell (exEnv 1) exKey ⟨.int 7, false, 0, false, 0⟩ := by
+  refine ⟨by decide, ?_⟩
+  intro h
+  have := h.1.mpr ⟨rfl, rfl⟩
+  cases this
+
+/-- **The former statement, for loaders that do not call `get_or_insert`** (neither the program nor any
+loader of the type table — every loader written before `AnyCache::get_or_insert` is used re-entrantly):
+a cell created at any depth of the evaluation is dynamic iff its type is hot-reloaded AND the cache has
+a reloader; reload id `NEVER`, flag clear. -/
+theorem C10_loaded_dynamic_iff_no_insert (env : Env) (henv : env.NoInsert) (fuel : Nat) (s : St) (p : Prog)
+    (hp : p.NoInsert) (k : Key) (c : Cell)
+    (hnew : s.lookup k = none) (h : (eval env fuel s p).1.lookup k = some c) : FreshCell env k c := by
+  have hP : ∀ key v addr, FreshCell env key (newCell env key.ty v addr) := by
+    intro key v addr
+    refine ⟨?_, rfl, rfl⟩
+    simp only [newCell, loadedEntryDynamic_cfg, Bool.and_eq_true]
+  rcases eval_added_noInsert env henv (FreshCell env) hP fuel s p hp k c h with h' | h'
+  · rw [hnew] at h'; cases h'
+  · exact h'
+
+theorem exEnv_noInsert (n : Int) : (exEnv n).NoInsert := fun _ _ => Prog.NoInsert.ret _
+
+example : FreshCell (exEnv 1) exKey ⟨.int 1, true, 0, false, 0⟩ :=
+  C10_loaded_dynamic_iff_no_insert (exEnv 1) (exEnv_noInsert 1) 5 {} (.load exKey Prog.ret')
+    (Prog.NoInsert.load _ _ Prog.NoInsert.ret') exKey _ rfl (by decide)
+
+/-- …and for the API operation `load` under such a type table -/
+theorem C10_load_dynamic_iff_no_insert (env : Env) (henv : env.NoInsert) (fuel : Nat) (s : St) (key k : Key) (c : Cell)
+    (hnew : s.lookup k = none) (h : (step env fuel s (.load key)).1.lookup k = some c) : FreshCell env k c := by
+  rw [step_load_fst] at h
+  have hP : ∀ key v addr, FreshCell env key (newCell env key.ty v addr) := by
+    intro key v addr
+    refine ⟨?_, rfl, rfl⟩
+    simp only [newCell, loadedEntryDynamic_cfg, Bool.and_eq_true]
+  rcases (Added.mapRel₀ hP).evalTop_rel henv fuel s _ (Prog.NoInsert.load _ _ Prog.NoInsert.ret') k c h with h' | h'
+  · rw [hnew] at h'; cases h'
+  · exact h'
+
+example : FreshCell (exEnvOpt 1) exKeyOpt ⟨.int 1, false, 0, false, 0⟩ :=
+  C10_load_dynamic_iff_no_insert (exEnvOpt 1) (fun _ _ => Prog.NoInsert.ret _) 5 {} exKeyOpt exKeyOpt _ rfl (by decide)
 
 /-- the same for the API operation `load` -/
 theorem C10_load_dynamic_iff (env : Env) (fuel : Nat) (s : St) (key k : Key) (c : Cell)
-    (hnew : s.lookup k = none) (h : (step env fuel s (.load key)).1.lookup k = some c) : FreshCell env k c := by
+    (hnew : s.lookup k = none) (h : (step env fuel s (.load key)).1.lookup k = some c) : CreatedCell env k c := by
   rw [step_load_fst] at h
-  rcases (Added.mapRel (newCells_fresh env)).evalTop_rel fuel s _ k c h with h' | h'
+  rcases (Added.mapRel (newCells_created env)).evalTop_rel fuel s _ k c h with h' | h'
   · rw [hnew] at h'; cases h'
   · exact h'
 
@@ -145,7 +214,7 @@ theorem C10_load_dynamic_iff (env : Env) (fuel : Nat) (s : St) (key k : Key) (c 
 example : ((step (exEnv 1) 5 {} (.load exKey)).1.lookup exKey).map (·.dyn) = some true ∧
     ((step (exEnvOpt 1) 5 {} (.load exKeyOpt)).1.lookup exKeyOpt).map (·.dyn) = some false ∧
     ((step (exEnvNo 1) 5 {} (.load exKey)).1.lookup exKey).map (·.dyn) = some false := by decide
-example : FreshCell (exEnvOpt 1) exKeyOpt ⟨.int 1, false, 0, false, 0⟩ :=
+example : CreatedCell (exEnvOpt 1) exKeyOpt ⟨.int 1, false, 0, false, 0⟩ :=
   C10_load_dynamic_iff (exEnvOpt 1) 5 {} exKeyOpt exKeyOpt _ rfl (by decide)
 
 /-- `AllStaticWhen`: in a cache without reloader (`without_hot_reloading`, `LocalAssetCache`, a source
@@ -155,7 +224,7 @@ def AllStaticWhen (env : Env) : Prop :=
 
 theorem C10_all_static_when (env : Env) : AllStaticWhen env := by
   intro hr fuel s p
-  refine eval_added env _ ?_ fuel s p
+  refine eval_added env _ ⟨?_, fun key v addr => (insertedCell_static env key v addr).1⟩ fuel s p
   intro key v addr
   simp only [newCell, loadedEntryDynamic_cfg, hr, Bool.and_false]
 
@@ -165,7 +234,7 @@ example : (exEnvNo 1).hasReloader = false ∧
 /-- every cell of a type that opts out of hot-reloading is created static, in every cache -/
 theorem C10_opted_out_static (env : Env) (fuel : Nat) (s : St) (p : Prog) :
     Added (fun k c => (env.types k.ty).hot = false → c.dyn = false) s (eval env fuel s p).1 := by
-  refine eval_added env _ ?_ fuel s p
+  refine eval_added env _ ⟨?_, fun key v addr _ => (insertedCell_static env key v addr).1⟩ fuel s p
   intro key v addr hh
   simp only [newCell, loadedEntryDynamic_cfg, hh, Bool.false_and]
 
@@ -305,12 +374,12 @@ theorem C10_history_load_static (fuel : Nat) (h2 : List (Env × HOp)) (s : St) (
     (hkeep : ∀ e ∈ h2, e.2.removes key = false) :
     c.dyn = false ∧ c.rid = ReloadId_NEVER ∧ c.flag = false ∧
     (runH fuel ((env, .api (.load key)) :: h2) (s, r)).1.lookup key = some c := by
-  have hf := C10_load_dynamic_iff env fuel s key key c habs hload
+  have hf := (C10_load_dynamic_iff env fuel s key key c habs hload).weak
   have hd : c.dyn = false := by
     cases hdyn : c.dyn with
     | false => rfl
     | true =>
-      have := hf.1.mp hdyn
+      have := hf.1 hdyn
       rcases hopt with h | h
       · rw [h] at this; exact absurd this.1 (by decide)
       · rw [h] at this; exact absurd this.2 (by decide)
